@@ -288,7 +288,7 @@ impl Fam {
                 let mut adj = vec![0u32; *m];
                 let mut bit = 0;
                 for u in 0..*m { for v in u + 1..*m { if g & (1 << bit) != 0 { adj[u] |= 1 << v; adj[v] |= 1 << u; } bit += 1; } }
-                Box::new(Sp::new(*m, w, adj, var.la, var.rub != Rub::None, var.rank, name))
+                { let mut sp = Sp::new(*m, w, adj, var.la, var.rub != Rub::None, var.rank, name); sp.dom = var.dom != crate::model::Dom::Off; Box::new(sp) }
             }
             _ => {
                 let mut var = var;
